@@ -5,7 +5,8 @@ Decided:
   R-SEED     every random generator / QMC engine (including the helper engine of the multinomial allocation, whose own seed=
              is ignored by SciPy when an engine is supplied) is derived from `seed`; no draw from a global generator; the
              returned samples depend on `seed` and on no unseeded entropy source ⇒ identical for identical seeds
-  R-SHAPE    the pseudo-random branch returns exactly n rows
+  R-SHAPE    the pseudo-random branch returns exactly n rows; in the QMC branch the per-simplex counts handed to np.repeat sum to
+             n by construction (rows of a multinomial draw with n trials; rounded shares are a violation)
   membership by construction: every returned row is Σ_j w_j v_j with v_j the vertices of a simplex of the triangulated hull
              and w a probability vector: weights are Dirichlet draws or non-negative QMC points divided by their own L1 norm
              (simplex rows), combined with the simplex vertices by a contraction over the vertex index; simplex indices of a
